@@ -123,6 +123,10 @@ def make_regression_inputs(outdir):
             put('meta', '%s-op%d' % (name, op), enc_meta(doc, key=b'title', val=b'new value', family=op % 3, op=op, vnull=1))
             put('critic', '%s-op%d' % (name, op), enc_critic(doc, op=op, a=2, b=len(doc)))
             put('transclude', '%s-api%d' % (name, op), enc_transclude(doc, api=op, fmt=op, sp=op % 3))
+    # large structured documents: a few writers only
+    wide = ('|'.join('a' for _ in range(33000)) + '\n' + '|'.join('-' for _ in range(33000)) + '\n' + '|'.join('b' for _ in range(33000)) + '\n').encode()
+    for fmt in (0, 2, 5):
+        put('convert', 'table-33000-columns-f%02d' % fmt, enc_convert(wide, fmt=fmt, ext=0x218, api=2))
     for name, doc in OPML_DOCS.items():
         for api in range(4):
             put('opml', '%s-api%d' % (name, api), enc_opml(doc, api=api, fmt=api))
